@@ -2,6 +2,7 @@ import SamplyModel.Lemmas.ConvStacks
 import SamplyModel.Lemmas.ConvJit
 import SamplyModel.Lemmas.ConvHistFinal
 import SamplyModel.Lemmas.ConvElide
+import SamplyModel.Lemmas.ConvOrdered
 import SamplyModel.Model.SvmaBias
 /-!
 # C02 — frames are attributed to the library mapped at that address at sample time
@@ -248,7 +249,8 @@ The hypotheses of `C02_history` (all decidable on the configuration and the bare
   C02-special-path-not-evicting; the judge's tag compares with `ExpSample.legacySp`, which coincides with the
   statement's reading exactly here: `C02_noSpecial_legacySp`);
 * `queuedOrdered rs` — MMAP2 and SAMPLE records are delivered in time order (known finding C02-backdated-record;
-  the `layout` families are the excluded points);
+  the `layout` families are the excluded points; the judge's tag compares with `ExpSample.legacyQ`, which
+  coincides with the statement's reading here: `C02_ordered_legacyQ`);
 * every perf-map file loads without arithmetic panic (`C02_perf_map_load_safe_iff`; the driver prints `panic`
   otherwise).
 
@@ -335,6 +337,14 @@ statement's reading: the judge's `[special-path-not-evicting]` tag (attached onl
 theorem C02_noSpecial_legacySp (cfg : Config) (rs : List Rec) (h : noSpecial rs = true) :
     ∀ e ∈ expectedSamples cfg rs, e.legacySp = e.frames :=
   expectedSamples_go_legacySp cfg rs h [] [] []
+
+/-- Inside `noSpecial` and `queuedOrdered` the spec-side reading of samply's present queue mechanism (`legacyQ`:
+queue *prefix* against the running maximum of the buffer's sample times) is the statement's reading (cut-off by
+timestamp): the judge's `[backdated-record]` tag (attached only when the output equals a `legacyQ` that differs from
+`frames`) is never attached to a history `C02_history` speaks about. -/
+theorem C02_ordered_legacyQ (cfg : Config) (rs : List Rec) (h1 : noSpecial rs = true)
+    (h2 : queuedOrdered rs = true) : ∀ e ∈ expectedSamples cfg rs, e.legacyQ = e.frames :=
+  expectedSamples_legacyQ cfg rs h1 h2
 
 /-! ### Non-vacuity: nested, replaced and adjacent mappings -/
 def C02_exQ : List (Nat × MapAdd) :=
